@@ -722,6 +722,27 @@ end
 def render (T : PrecTable) (e : Expr) : List Char := flat (compile T none e)
 
 
+/-! ## `astbuilder.ModuleVistor._storeAttrValue`: the value of a variable assembled from statements -/
+
+/-- `_storeAttrValue(obj, new_value, augassign)` on `obj.value = old`:
+`if new_value: if augassign: (if obj.value: obj.value = BinOp(obj.value, augassign, new_value)) else: obj.value = new_value`
+(the synthetic `BinOp` has no `parent` attribute; the colourizer links the whole tree when it meets it) -/
+def storeAttrValue (old : Option Expr) (new : Option Expr) (aug : Option BOp) : Option Expr :=
+  match new with
+  | none => old
+  | some v =>
+    match aug with
+    | some op =>
+      match old with
+      | some o => some (.binary op o v)
+      | none => none
+    | none => some v
+
+/-- the statements `X = v` / `X op= v` of one variable, in source order -/
+def storeAll (old : Option Expr) : List (Option BOp × Expr) → Option Expr
+  | [] => old
+  | (aug, v) :: rest => storeAll (storeAttrValue old (some v) aug) rest
+
 /-! ## Specification side: Python's reading of a concrete expression text
 
 `Doc` is a concrete syntax tree: exactly the token structure of a displayed text, with every
